@@ -1,6 +1,7 @@
 import RocflModel.Script
 import RocflModel.Commit
 import RocflModel.ValidateNums
+import RocflModel.Validator
 /-
   Driver side of the physical-layer protocol: prints the model's install-phase scripts and runs the
   Lean trace monitors on observed traces.
@@ -121,6 +122,22 @@ def physStep (op : String) (a : List String) : String :=
     let vs := nums.filterMap String.toNat?
     let a := ValidateNums.run vs
     s!"ok e010={a.e010}"
+  -- expected <corruption kind> <fixity 0|1>: the codes of the checks that answer to the corruption
+  | "script-expected", [kind, fx] =>
+    let c? : Option Validator.Corruption := match kind with
+      | "content-change" => some .contentChange | "content-truncate" => some .contentTruncate
+      | "content-extend" => some .contentExtend | "content-delete" => some .contentDelete
+      | "content-add" => some .contentAdd | "content-rename" => some .contentRename | "content-swap" => some .contentSwap
+      | "content-to-symlink" => some .contentToSymlink | "content-to-emptydir" => some .contentToEmptyDir
+      | "dir-to-symlink" => some .dirToSymlink | "dir-to-emptydir" => some .dirToEmptyDir
+      | "root-inv-byte" => some .rootInvByte | "ver-inv-byte" => some .verInvByte
+      | "root-sidecar-digest" => some .rootSidecarDigest | "ver-sidecar-digest" => some .verSidecarDigest
+      | "decl-delete" => some .declDelete | "decl-alter" => some .declAlter | "stray-root" => some .strayRoot
+      | "stray-version" => some .strayVersion | "stray-content" => some .strayContent
+      | "remove-version-dir" => some .removeVersionDir | _ => none
+    match c? with
+    | some c => "ok " ++ ",".intercalate (Validator.expectedCodes c (fx == "1"))
+    | none => "bad-arg"
   | _, _ => "bad-op"
 
 end Driver
